@@ -81,3 +81,28 @@ func (w *World) wattTimeServe(req *http.Request) (*http.Response, error) {
 	}
 	return jsonResp(req, 404, map[string]string{"error": "not found"}), nil
 }
+
+// nasaServe answers a request to power.larc.nasa.gov with a small, well-formed
+// hourly series (or fails, by policy).
+func (w *World) nasaServe(req *http.Request) (*http.Response, error) {
+	kind := 0
+	if w.WattTime != nil {
+		kind, _ = w.WattTime("nasa")
+	}
+	w.Probe("nasa.request")
+	switch kind {
+	case 1:
+		w.Fault("nasa.refused")
+		return nil, &netError{msg: "dial tcp power.larc.nasa.gov:443: connect: connection refused"}
+	case 2:
+		w.Fault("nasa.500")
+		return jsonResp(req, 500, map[string]string{"error": "internal"}), nil
+	}
+	series := map[string]float64{}
+	for d := 1; d <= 3; d++ {
+		for h := 0; h < 24; h++ {
+			series[fmt.Sprintf("202301%02d%02d", d, h)] = float64(h * 30)
+		}
+	}
+	return jsonResp(req, 200, map[string]interface{}{"type": "Feature", "properties": map[string]interface{}{"parameter": map[string]interface{}{"ALLSKY_SFC_SW_DWN": series}}}), nil
+}
